@@ -9,6 +9,9 @@ import PeliteModel.Driver.Scan
 import PeliteModel.Driver.Walk
 import PeliteModel.Driver.Imports
 import PeliteModel.Driver.Exports
+import PeliteModel.Driver.Json
+import PeliteModel.Driver.Dirs
+import PeliteModel.Driver.Resources
 -- IMPORT-MARKER (add `import PeliteModel.Driver.<M>` above this line)
 /-! `model`: the line-protocol driver.  One answer line per operation line; the part after ` ## `
 is the executable specification's answer and whether the input meets the theorem's hypotheses. -/
@@ -26,6 +29,9 @@ def handlers : List Handler := [
   , dispatchWalk
   , dispatchImports
   , dispatchExports
+  , dispatchJson
+  , dispatchDirs
+  , dispatchResources
   -- HANDLER-MARKER (add `, dispatch<M>` above this line)
   ]
 
